@@ -47,6 +47,12 @@ CHECKS = {
     "C15": dict(engine="E3", cat="model_checking",
                 technique="stateless model checking: every multiset of 2 (3) requests from a pool in flight on one engine under all interleavings of their resolver completions, differential against solo runs on fresh engines, followed by a probe request",
                 text="All 2-multisets (thorough: plus a third of the 3-multisets) of a 13-request pool (same text / other variables incl. a @skip nested under a suspending field, same text / other operation name, other documents, failing, raising, bytes spelling, dict context, invalid variables, a shared exception object) are started as tasks on one hand-stepped loop; ALL completion orders of their suspended resolvers are executed. Each response must equal the response of the same request run alone on a fresh engine (data and error multiset), and a probe request issued afterwards must answer as on a fresh engine."),
+    "C16": dict(engine="E4", cat="model_checking",
+                technique="exhaustive enumeration of all request sequences up to depth k over an 8-letter request alphabet x 5 cache configurations, each history from a freshly cooked engine, position-by-position differential against a fresh cache-less engine",
+                text="EVERY sequence of length 4 (thorough 5: 32768) over an alphabet of 8 requests (valid A, failing B, A with other variables flipping a @skip, the two operations of one document, validation-invalid, syntactically broken, bytes spelling of A) x {default LRU(512), lru_cache(1), lru_cache(2), a key-exposing LRU(2), disabled}; plus every length-3 sequence over a second alphabet whose resolvers raise one shared exception object. Every response must equal the response of the same single request on a fresh engine without parsing cache. The key-exposing cache reports the distinct cache states and (state, request) transitions reached."),
+    "C17": dict(engine="E4", cat="model_checking",
+                technique="exhaustive enumeration of all registration/cooking orders of 2-4 implementation bundles (also at single-decorator granularity), one forked process per history, differential against each bundle built alone in a fresh process",
+                text="Bundles share every type, field, scalar, directive and subscription name and differ in behaviour and schema_name. ALL orders of reg(i)/cook(i) events (reg before cook) for 2 bundles (6), 3 bundles (90), thorough 4 bundles (2520), and for 2 bundles with each of the 5 registration kinds as a separate event (924 interleavings); each history runs in its own forked process. Every cooked engine is probed twice in alternation (resolvers, type resolver, scalar input by literal and variable, scalar output, directive, introspection, subscription) and must answer exactly like the same bundle built alone in a fresh process."),
     "C18": dict(engine="E1", cat="model_checking",
                 technique="exhaustive enumeration of all short strings over a 14-character alphabet and of all single-token mutations of seed documents x operation names x variables objects x error coercers; envelope invariant checked on every execution",
                 text="Every string of length <= 4 (thorough 5) over {}a ():$\"1.@#\\n, every single-token deletion/duplication/replacement of 6 seed documents, byte spellings (BOM, NUL, invalid UTF-8), nesting depth 50/500/5000, x 4 error coercers x operation names x 9 variables objects. Invariant: never raises, dict with data, errors absent or non-empty with well-formed entries and in-text locations, syntax errors / failed operation selection run nothing, custom coercer awaited exactly once per error and its value used."),
